@@ -398,6 +398,69 @@ fn intersect_pair(a: usize, b: usize, program: &mut Program) -> usize {
             let tuple_id = program.register_tuple(i1.name.clone(), fields);
             program.register_type(Type::Tuple(tuple_id))
         }
+        // Two function types always overlap, so the catch-all below would answer `a` — more than
+        // the intersection, and a complement computed from it would then subtract `a` whole (a
+        // later branch testing for `a` itself would be pruned). Build the exact meet instead: the
+        // functions that accept either parameter (and either message) and whose result is a value
+        // of both results. Recursive function types keep the old answer (a `^` must not be
+        // re-bound under a new type).
+        (
+            Type::Callable {
+                parameter: p1,
+                result: r1,
+                receive: c1,
+            },
+            Type::Callable {
+                parameter: p2,
+                result: r2,
+                receive: c2,
+            },
+        ) if !contains_cycle(a, &*program, &mut Vec::new())
+            && !contains_cycle(b, &*program, &mut Vec::new()) =>
+        {
+            if is_compatible(a, b, program) {
+                return a;
+            }
+            if is_compatible(b, a, program) {
+                return b;
+            }
+            let parameter = union_type_ids(program, vec![*p1, *p2]);
+            let result = intersect_types(*r1, *r2, program);
+            let receive = union_type_ids(program, vec![*c1, *c2]);
+            program.register_type(Type::Callable {
+                parameter,
+                result,
+                receive,
+            })
+        }
+        // Likewise for process types (both positions covariant; an unknown side imposes nothing).
+        (
+            Type::Process {
+                send: s1,
+                receive: r1,
+            },
+            Type::Process {
+                send: s2,
+                receive: r2,
+            },
+        ) if !contains_cycle(a, &*program, &mut Vec::new())
+            && !contains_cycle(b, &*program, &mut Vec::new()) =>
+        {
+            if is_compatible(a, b, program) {
+                return a;
+            }
+            if is_compatible(b, a, program) {
+                return b;
+            }
+            let mut meet = |x: &Option<usize>, y: &Option<usize>| match (x, y) {
+                (Some(x), Some(y)) => Some(intersect_types(*x, *y, program)),
+                (Some(x), None) | (None, Some(x)) => Some(*x),
+                (None, None) => None,
+            };
+            let send = meet(s1, s2);
+            let receive = meet(r1, r2);
+            program.register_type(Type::Process { send, receive })
+        }
         _ => {
             if types_overlap(a, b, program) {
                 a
